@@ -75,6 +75,8 @@ type Stats struct {
 	AssertSat      int            `json:"assert_sat"`
 	AssertSatModel int            `json:"assert_sat_by_model"`
 	Unknown        int            `json:"unknown"`
+	CrossAgreed    int            `json:"cross_solver_agreed"`
+	CrossUnknown   int            `json:"cross_solver_unknown"`
 	Ends           map[string]int `json:"path_ends"`
 	Reached        map[string]int `json:"reached"`
 	AssertLabels   map[string]int `json:"assert_labels"`
@@ -120,6 +122,7 @@ type Exec struct {
 	maxPaths   int
 	truncated  bool
 	seed       uint64
+	crossSolver string
 }
 
 func NewExec(ts *TermStore, solver *Solver, params map[string]int64) *Exec {
@@ -405,6 +408,18 @@ func (ex *Exec) Assert(cond *Term, label string) {
 	} else {
 		q := append([]*Term{neg}, extras...)
 		r, m := ex.solver.CheckWith(q...)
+		if r == Unsat && ex.crossSolver != "" {
+			// thorough tier: the discharged obligation is re-decided by a second solver
+			switch ex.solver.CrossCheck(ex.crossSolver, q...) {
+			case Unsat:
+				ex.stats.CrossAgreed++
+			case Sat:
+				ex.note("solver-disagreement:" + label)
+				r = Unknown
+			default:
+				ex.stats.CrossUnknown++
+			}
+		}
 		switch r {
 		case Unsat:
 			ex.stats.AssertUnsat++
